@@ -4,7 +4,9 @@
 //!       executes every scenario (one JSON object per line) against the real canister and writes
 //!       the recorded events; each scenario starts with a `universe` event.
 mod concrete;
+mod decide;
 mod exec;
+mod headers;
 mod txparse;
 
 use std::io::{BufRead, Write};
@@ -39,6 +41,25 @@ fn main() {
             }
             out.flush().unwrap();
             eprintln!("executed {n} scenarios");
+        }
+        "decide" => {
+            exec::install_panic_hook();
+            let input = std::fs::File::open(&args[2]).expect("open inputs");
+            let mut out = std::io::BufWriter::new(std::fs::File::create(&args[3]).expect("create output"));
+            let mut n = 0;
+            for line in std::io::BufReader::new(input).lines() {
+                let line = line.unwrap();
+                if line.trim().is_empty() {
+                    continue;
+                }
+                let v: serde_json::Value = serde_json::from_str(&line).expect("input json");
+                for rec in decide::run(&v) {
+                    writeln!(out, "{}", rec).unwrap();
+                    n += 1;
+                }
+            }
+            out.flush().unwrap();
+            eprintln!("wrote {n} decision records");
         }
         other => {
             eprintln!("unknown subcommand {other}");
